@@ -65,22 +65,29 @@ def run_case(case, ctx):
     text_g = cfg.to_parglare(term_meta=tmeta)
     tb = case["table"]
     parsers = []
+    l1 = case.get("lex") == "L1"
     try:
-        for ld in (False, True):
+        # overlapping lexicon: only GLR without lexical disambiguation is compared (what longest-match
+        # tokenisation makes of an overlapping lexicon is not part of the reference)
+        for ld in ((False,) if l1 else (False, True)):
             parsers.append(("GLR/lexdis=%s" % ld,
                             pgl.GLRParser(pgl.Grammar.from_string(text_g), tables=pgl.TABLES[tb],
                                           consume_input=False, lexical_disambiguation=ld), "glr"))
     except Exception as e:
         ctx.fail("glr-construction-raises", grammar=text_g, error=repr(e))
     try:
-        parsers.append(("LR", pgl.Parser(pgl.Grammar.from_string(text_g), tables=pgl.TABLES[tb],
-                                         consume_input=False, build_tree=True), "lr"))
+        if not l1:
+            parsers.append(("LR", pgl.Parser(pgl.Grammar.from_string(text_g), tables=pgl.TABLES[tb],
+                                             consume_input=False, build_tree=True), "lr"))
     except (SRConflicts, RRConflicts):
         pass
     d1 = nullable_goto_cycle(parsers[0][1].table, cfg.nullable())
     dead = set()
-    for k, w in enumerate(G.l0_inputs(cfg, case["max_len"], junk_upto=2)):
-        text = G.render(w, case["fill"], k)
+    if l1:
+        inputs = [(k, t) for k, t in enumerate(G.char_inputs(case.get("alphabet", "ab "), case["max_len"]))]
+    else:
+        inputs = [(k, G.render(w, case["fill"], k)) for k, w in enumerate(G.l0_inputs(cfg, case["max_len"], junk_upto=2))]
+    for k, text in inputs:
         chart = Chart(cfg, lex, text)
         ends = chart.sentence_prefix_ends()
         info = dict(grammar=text_g, table=tb, input=text)
@@ -221,6 +228,16 @@ def run_case(case, ctx):
 FILL = st.lists(st.sampled_from(["", " ", "\n", "  "]), min_size=2, max_size=5)
 
 
+def strat_l1(tier):
+    @st.composite
+    def c(draw):
+        g = draw(gen.cfgs(max_nts=3, max_alts=3, max_rhs=3, min_terms=2, max_terms=4,
+                          terms_pool=gen.L1_TERMS).filter(gen.acyclic))
+        return {"g": g, "table": draw(st.sampled_from(["LALR", "SLR"])), "lex": "L1", "alphabet": "ab ",
+                "fill": [""], "prios": [10], "max_len": 5}
+    return c()
+
+
 def _case(gstrat):
     @st.composite
     def c(draw):
@@ -268,6 +285,7 @@ SUBCHECKS = [
     SubCheck("tiny-exhaustive", run_case, enumerate=enum_tiny),
     SubCheck("epsilon-family", run_case, enumerate=enum_epsilon),
     SubCheck("random-L0", run_case, strategy=strat_l0, examples={"quick": 1600, "thorough": 24000}),
+    SubCheck("random-L1-overlapping", run_case, strategy=strat_l1, examples={"quick": 640, "thorough": 8000}),
 ]
 
 
